@@ -72,37 +72,66 @@ theorem returns_committed_value {float counter : Bool} {prog : List (List String
 theorem commit_order_fixed {s s' : ASt} {it : Item} (h : aItem s it = .ok s') : s.lin <+: s'.lin :=
   aItem_lin_mono h
 
+/-- what `casNew` is in each flavour: IEEE addition of the float delta; wrapping `u64` addition resp.
+    subtraction of the integer operand -/
+theorem casNew_cases {float : Bool} {op : String} {v w : UInt64} (h : casNew float op v = some w) :
+    (float = true → ∃ d, floatDelta op = some d ∧ w = f64Add v d) ∧
+      (float = false → w = if isSubOp op then v - intDelta op else v + intDelta op) := by
+  unfold casNew at h
+  split at h
+  · next hf =>
+    refine ⟨fun _ => ?_, fun hf' => by rw [hf'] at hf; cases hf⟩
+    cases hd : floatDelta op with
+    | none => simp [hd] at h
+    | some d =>
+      simp only [hd, Option.map_some, Option.some.injEq] at h
+      exact ⟨d, rfl, h.symm⟩
+  · next hf =>
+    refine ⟨fun hf' => absurd hf' hf, fun _ => ?_⟩
+    simp only at h
+    split at h
+    · cases h
+    · simp only [Option.some.injEq] at h; exact h.symm
+
 /-- the compare-exchange arm: a success found exactly the expected value `cur` in the cell and
-    replaces it by `cur` plus the call's delta -/
+    replaces it by `cur` plus the call's delta, in the arithmetic of the flavour -/
 theorem aEvCas_success {float : Bool} {mem : UInt64} {op : String} {cur : UInt64} {e : Ev} {mem' : UInt64} {rv : String}
     (h : aEvCas float mem op cur e = .ok (mem', .inr rv)) :
-    mem = cur ∧ ∃ d, floatDelta op = some d ∧ mem' = f64Add mem d := by
-  unfold aEvCas at h
-  simp only at h
-  split at h
-  · cases h
-  · next d hd =>
-    rw [guard_ok] at h; obtain ⟨_, h⟩ := h
-    split at h
-    · rw [guard_ok] at h; obtain ⟨hc, h⟩ := h
-      simp only [Bool.and_eq_true, beq_iff_eq] at hc
-      cases h
-      exact ⟨hc.1, d, hd, by rw [hc.1]⟩
-    · rw [guard_ok] at h; obtain ⟨_, h⟩ := h; cases h
+    mem = cur ∧ (float = true → ∃ d, floatDelta op = some d ∧ mem' = f64Add mem d) ∧
+      (float = false → mem' = if isSubOp op then mem - intDelta op else mem + intDelta op) := by
+  obtain ⟨h1, h2, _⟩ := aEvCas_success_new h
+  exact ⟨h1, casNew_cases h2⟩
 
-/-- an accepted float compare-exchange that succeeds found exactly the value the thread had loaded
-    and replaces it by that value plus the thread's own delta: the increment takes effect on the
-    *current* value, nothing another thread added is overwritten -/
+/-- an accepted compare-exchange that succeeds found exactly the value the thread had loaded and replaces it
+    by that value plus the thread's own delta: the increment takes effect on the *current* value, nothing
+    another thread added is overwritten. Float flavour (`float = true`, as before): IEEE addition of the
+    float delta. Integer flavour (`float = false`: the add written as a compare-exchange loop, which the
+    machine did not accept before): wrapping addition resp. subtraction of the integer operand. -/
 theorem cas_success_adds_delta {float : Bool} {mem : UInt64} {op : String} {cur : UInt64} {e : Ev} {mem' : UInt64} {rv : String}
     (h : aEv float mem op (.cas cur) e = .ok (mem', .inr rv)) :
-    mem = cur ∧ ∃ d, floatDelta op = some d ∧ mem' = f64Add mem d := by
+    mem = cur ∧ (float = true → ∃ d, floatDelta op = some d ∧ mem' = f64Add mem d) ∧
+      (float = false → mem' = if isSubOp op then mem - intDelta op else mem + intDelta op) := by
   unfold aEv at h
   simp only at h
   split at h
   · cases h
   · exact aEvCas_success h
 
-/-- an accepted event that does not complete its call — the load of a float add, a failed
+/-- `cas_success_adds_delta` as it read when only the float add was a loop (the statement for `float = true`) -/
+theorem float_cas_success_adds_delta {mem : UInt64} {op : String} {cur : UInt64} {e : Ev} {mem' : UInt64} {rv : String}
+    (h : aEv true mem op (.cas cur) e = .ok (mem', .inr rv)) :
+    mem = cur ∧ ∃ d, floatDelta op = some d ∧ mem' = f64Add mem d :=
+  ⟨(cas_success_adds_delta h).1, (cas_success_adds_delta h).2.1 rfl⟩
+
+/-- an accepted INTEGER compare-exchange that succeeds found exactly the value the thread had loaded (or the
+    failed exchange had reported) and replaces it by that value plus (minus, for `dec` / `sub`) the call's
+    operand, wrapping: exactly what the single `fetch_add` / `fetch_sub` does to the current value -/
+theorem int_cas_success_adds_delta {mem : UInt64} {op : String} {cur : UInt64} {e : Ev} {mem' : UInt64} {rv : String}
+    (h : aEv false mem op (.cas cur) e = .ok (mem', .inr rv)) :
+    mem = cur ∧ mem' = if isSubOp op then mem - intDelta op else mem + intDelta op :=
+  ⟨(cas_success_adds_delta h).1, (cas_success_adds_delta h).2.2 rfl⟩
+
+/-- an accepted event that does not complete its call — the load of an add written as a loop, a failed
     compare-exchange (value changed, or spurious) — changes nothing: a failed attempt has no effect,
     it is retried -/
 theorem cas_failure_no_effect {float : Bool} {mem : UInt64} {op : String} {pc : APc} {e : Ev} {mem' : UInt64} {pc' : APc}
@@ -121,7 +150,7 @@ theorem cas_failure_goes_to_retry {float : Bool} {mem : UInt64} {op : String} {p
   · obtain ⟨h1, h2, h3, h4⟩ := aEvCas_continue h
     exact ⟨h1, h2, h4, h3⟩
 
-/-- the load of a float add (first attempt, or a reload after a failure) returns the cell's value,
+/-- the load of an add written as a loop (first attempt, or a reload after a failure) returns the cell's value,
     changes nothing, and leaves the thread at the compare-exchange expecting that value -/
 theorem load_goes_to_cas {float : Bool} {mem : UInt64} {op : String} {pc : APc} {e : Ev} {mem' : UInt64} {pc' : APc}
     (h : aEv float mem op pc e = .ok (mem', .inl pc')) (hk : e.k = "L") :
@@ -130,11 +159,8 @@ theorem load_goes_to_cas {float : Bool} {mem : UInt64} {op : String} {pc : APc} 
   · exact ⟨(aEvStart_continue h1).1, (aEvStart_continue h1).2.1⟩
   · have hne : e.k ≠ "L" := by
       intro hk
-      unfold aEvCas at h1
-      split at h1
-      · cases h1
-      · rw [guard_ok] at h1
-        simp [hk] at h1
+      have := (aEvCas_kind h1)
+      rw [hk] at this; exact absurd this (by decide)
     exact absurd hk hne
 
 /-- **retry accepts exactly both loops**: after a failed compare-exchange that reported `cur`, a load
@@ -148,12 +174,14 @@ theorem retry_accepts_both (float : Bool) (mem : UInt64) (op : String) (cur : UI
   · simp [hl]
   · by_cases hk : e.k = "L" <;> simp [hl, hk]
 
-/-- `cas_success_adds_delta` for the retry without a reload: a float add (`floatDelta op` is defined)
-    that completes from `retry cur` did so by a compare-exchange that found exactly the reported value
-    `cur` still in the cell and replaced it by that value plus the thread's own delta -/
+/-- `cas_success_adds_delta` for the retry without a reload: an add (`floatDelta op` is defined: not a
+    `get` / `set` / `reset`) that completes from `retry cur` did so by a compare-exchange that found exactly
+    the reported value `cur` still in the cell and replaced it by that value plus the thread's own delta
+    (float flavour: IEEE addition; integer flavour: wrapping addition / subtraction of the operand) -/
 theorem retry_success_adds_delta {float : Bool} {mem : UInt64} {op : String} {cur : UInt64} {e : Ev} {mem' : UInt64} {rv : String}
     (h : aEv float mem op (.retry cur) e = .ok (mem', .inr rv)) (hd : (floatDelta op).isSome = true) :
-    mem = cur ∧ ∃ d, floatDelta op = some d ∧ mem' = f64Add mem d := by
+    mem = cur ∧ (float = true → ∃ d, floatDelta op = some d ∧ mem' = f64Add mem d) ∧
+      (float = false → mem' = if isSubOp op then mem - intDelta op else mem + intDelta op) := by
   rcases aEv_cases h with ⟨h, hp⟩ | ⟨c, h, hp⟩
   · exfalso
     rcases hp with hp | ⟨c, hp, hk⟩
@@ -170,10 +198,9 @@ theorem retry_success_adds_delta {float : Bool} {mem : UInt64} {op : String} {cu
           · split at h
             · cases h
             · rw [guard_ok] at h; obtain ⟨_, h⟩ := h; cases h
-          · rw [guard_ok] at h; obtain ⟨hg, _⟩ := h
-            simp only [Bool.and_eq_true, beq_iff_eq, hk] at hg
-            have := hg.1.1.1
-            split at this <;> simp at this
+          · split at h
+            · rw [guard_ok] at h; obtain ⟨_, h⟩ := h; cases h
+            · next hnl => simp [hk] at hnl
   · rcases hp with hp | ⟨hp, _⟩ <;> cases hp <;> exact aEvCas_success h
 
 /-- reads never go backwards by themselves: between two commits the value only changes by a
@@ -434,7 +461,7 @@ theorem retry_without_reload_accepted :
   have h : ∃ s, runItems aItem (aInit true true [["inc"], ["inc"]]) retryTrace 0 = .ok s ∧
       s.lin = [⟨1, 0, "inc", ""⟩, ⟨0, 0, "inc", ""⟩] ∧ s.mem = retryV2 ∧ allDone s.ths = true := by
     simp [runItems, retryTrace, aItem, aStep, aEv, aEvStart, aEvCas, Conc.guard, aInit, openCall, closeCall, r0,
-      opName_inc, oa, orl, fd, retryV1, retryV2, allDone]
+      opName_inc, oa, orl, fd, retryV1, retryV2, allDone, casNew, casOrd]
   obtain ⟨s, hr, hl, hm, hd⟩ := h
   exact ⟨s, hr, runItems_reach hr, hl, hm, hd⟩
 
@@ -449,7 +476,98 @@ theorem retry_with_reload_accepted :
   have orl : ordGe "Release" "Release" = true := by decide +kernel
   have fd : floatDelta "inc" = some retryOne := by simp [floatDelta, opName_inc, retryOne]
   simp [runItems, retryTrace, aItem, aStep, aEv, aEvStart, aEvCas, Conc.guard, aInit, openCall, closeCall, r0,
-    opName_inc, oa, orl, fd, retryV1, retryV2, allDone]
+    opName_inc, oa, orl, fd, retryV1, retryV2, allDone, casNew, casOrd]
+
+/-! ## the integer add written as a compare-exchange loop -/
+
+/-- two threads `inc` an INTEGER counter, both written as `load; compare_exchange(cur, cur + 1)` loops. Both
+    load `0`; thread 1's compare-exchange `0 -> 1` succeeds; thread 0's compare-exchange `0 -> 1` FAILS and
+    reports the value it found (`1`); thread 0 retries at once with the reported value (`1 -> 2`) and succeeds -/
+def intCasTrace : List Item :=
+  [.call 0 "0" "inc", .call 1 "0" "inc",
+   .ev ⟨0, "L", "v0", "Relaxed", 0, 0, 0, true⟩,
+   .ev ⟨1, "L", "v0", "Relaxed", 0, 0, 0, true⟩,
+   .ev ⟨1, "C", "v0", "Relaxed", 0, 1, 0, true⟩, .ret 1 "0" "",
+   .ev ⟨0, "C", "v0", "Relaxed", 0, 1, 1, false⟩,
+   .ev ⟨0, "C", "v0", "Relaxed", 1, 2, 1, true⟩, .ret 0 "0" ""]
+
+/-- **int_add_as_cas_loop_accepted** — an integer `inc` written as a compare-exchange loop is accepted:
+    `intCasTrace` (two increments race, thread 0's exchange fails, it retries with the value the failure
+    reported and succeeds) is an accepted run of the integer counter machine; both increments are committed,
+    thread 1's first, each exactly once, and the cell holds the sum `2`. The single `fetch_add` stays
+    accepted (`reset_allows_decrease_run`); so do the loop that loads again after the failure
+    (`int_add_as_cas_loop_reload_accepted`), stronger orderings, `dec` / `sub`, and a mix of both ways of
+    writing the operation in one run (`int_sub_as_cas_loop_accepted`). -/
+theorem int_add_as_cas_loop_accepted :
+    ∃ s, runItems aItem (aInit false true [["inc"], ["inc"]]) intCasTrace 0 = .ok s ∧
+      AReach (aInit false true [["inc"], ["inc"]]) s ∧
+      s.lin = [⟨1, 0, "inc", ""⟩, ⟨0, 0, "inc", ""⟩] ∧ s.mem = 2 ∧ allDone s.ths = true := by
+  have r0 : Nat.repr 0 = "0" := by decide +kernel
+  have og : ordGe "Relaxed" "Relaxed" = true := by decide +kernel
+  have h : ∃ s, runItems aItem (aInit false true [["inc"], ["inc"]]) intCasTrace 0 = .ok s ∧
+      s.lin = [⟨1, 0, "inc", ""⟩, ⟨0, 0, "inc", ""⟩] ∧ s.mem = 2 ∧ allDone s.ths = true := by
+    simp [runItems, intCasTrace, aItem, aStep, aEv, aEvStart, aEvCas, Conc.guard, aInit, openCall, closeCall, r0,
+      opName_inc, og, casNew, casOrd, isSubOp, intDelta, u64OfInt_one, allDone]
+  obtain ⟨s, hr, hl, hm, hd⟩ := h
+  exact ⟨s, hr, runItems_reach hr, hl, hm, hd⟩
+
+/-- the integer loop written with a reload after the failure is accepted as well: as `intCasTrace`, with a
+    load (returning the current value `1`) between thread 0's failed and its successful compare-exchange -/
+theorem int_add_as_cas_loop_reload_accepted :
+    ∃ s, runItems aItem (aInit false true [["inc"], ["inc"]])
+        (intCasTrace.take 7 ++ [.ev ⟨0, "L", "v0", "Relaxed", 0, 0, 1, true⟩] ++ intCasTrace.drop 7) 0 = .ok s ∧
+      s.lin = [⟨1, 0, "inc", ""⟩, ⟨0, 0, "inc", ""⟩] ∧ s.mem = 2 ∧ allDone s.ths = true := by
+  have r0 : Nat.repr 0 = "0" := by decide +kernel
+  have og : ordGe "Relaxed" "Relaxed" = true := by decide +kernel
+  simp [runItems, intCasTrace, aItem, aStep, aEv, aEvStart, aEvCas, Conc.guard, aInit, openCall, closeCall, r0,
+    opName_inc, og, casNew, casOrd, isSubOp, intDelta, u64OfInt_one, allDone]
+
+theorem splitOn_dec : "dec".splitOn ":" = ["dec"] := by split_on_lit
+theorem opName_dec : opName "dec" = "dec" := by simp [opName, splitOn_dec]
+
+/-- an integer GAUGE: thread 0 `dec`, written as a loop with stronger orderings than needed (load Acquire,
+    compare-exchange AcqRel), races with thread 1's `inc`, written as the single `fetch_add`. Thread 0 loads
+    `0`; thread 1 adds `1`; thread 0's exchange `0 -> 0 - 1` (wrapping: `0xffffffffffffffff`) fails and
+    reports `1`; its retry `1 -> 0` succeeds -/
+def intSubCasTrace : List Item :=
+  [.call 0 "0" "dec", .call 1 "0" "inc",
+   .ev ⟨0, "L", "v0", "Acquire", 0, 0, 0, true⟩,
+   .ev ⟨1, "A", "v0", "Relaxed", 1, 0, 0, true⟩, .ret 1 "0" "",
+   .ev ⟨0, "C", "v0", "AcqRel", 0, 0xffffffffffffffff, 1, false⟩,
+   .ev ⟨0, "C", "v0", "AcqRel", 1, 0, 1, true⟩, .ret 0 "0" ""]
+
+/-- **int_sub_as_cas_loop_accepted** — `dec` as a compare-exchange loop (wrapping subtraction, any orderings
+    at least Relaxed), in one run with an `inc` that is a single `fetch_add`: accepted, both committed once,
+    the `inc` first, the cell holds `0 + 1 - 1 = 0` -/
+theorem int_sub_as_cas_loop_accepted :
+    ∃ s, runItems aItem (aInit false false [["dec"], ["inc"]]) intSubCasTrace 0 = .ok s ∧
+      AReach (aInit false false [["dec"], ["inc"]]) s ∧
+      s.lin = [⟨1, 0, "inc", ""⟩, ⟨0, 0, "dec", ""⟩] ∧ s.mem = 0 ∧ allDone s.ths = true := by
+  have r0 : Nat.repr 0 = "0" := by decide +kernel
+  have og : ordGe "Relaxed" "Relaxed" = true := by decide +kernel
+  have oa : ordGe "Acquire" "Relaxed" = true := by decide +kernel
+  have oar : ordGe "AcqRel" "Relaxed" = true := by decide +kernel
+  have w : (0 : UInt64) - 1 = 0xffffffffffffffff := by decide +kernel
+  have h : ∃ s, runItems aItem (aInit false false [["dec"], ["inc"]]) intSubCasTrace 0 = .ok s ∧
+      s.lin = [⟨1, 0, "inc", ""⟩, ⟨0, 0, "dec", ""⟩] ∧ s.mem = 0 ∧ allDone s.ths = true := by
+    simp [runItems, intSubCasTrace, aItem, aStep, aEv, aEvStart, aEvCas, Conc.guard, aInit, openCall, closeCall, r0,
+      opName_inc, opName_dec, og, oa, oar, casNew, casOrd, isSubOp, intDelta, u64OfInt_one, allDone, w]
+  obtain ⟨s, hr, hl, hm, hd⟩ := h
+  exact ⟨s, hr, runItems_reach hr, hl, hm, hd⟩
+
+/-- the loop is not accepted blindly: `intCasTrace` with thread 0's stale compare-exchange (`0 -> 1`, made when
+    the cell already holds `1`) reported as a SUCCESS is rejected at that event (item 6) - accepting it would
+    lose thread 1's increment -/
+theorem int_cas_stale_success_rejected :
+    runItems aItem (aInit false true [["inc"], ["inc"]])
+        (intCasTrace.take 6 ++ [.ev ⟨0, "C", "v0", "Relaxed", 0, 1, 0, true⟩, .ret 0 "0" ""]) 0 =
+      .error "diverge@6: cas succeeded although the cell no longer holds the loaded value" := by
+  have r0 : Nat.repr 0 = "0" := by decide +kernel
+  have r6 : Nat.repr 6 = "6" := by decide +kernel
+  have og : ordGe "Relaxed" "Relaxed" = true := by decide +kernel
+  simp [runItems, intCasTrace, aItem, aStep, aEv, aEvStart, aEvCas, Conc.guard, aInit, openCall, closeCall, r0,
+    opName_inc, og, casNew, casOrd, isSubOp, intDelta, u64OfInt_one, r6]
+  decide +kernel
 
 /-- non-vacuity of `reads_monotone_int` / `reads_real_time_monotone`: an accepted run of `inc; inc`
     against `get; get` whose commit log (`inc, get, inc, get`, reads 1 then 2) is `IncOnly` and `NoWrap` -/
